@@ -75,12 +75,14 @@ def _r1(ctx, f):
     # n and c are the names bound to len(kernel) and cpu_count()
     nvars = [a.targets[0].id for a in ast.walk(f.node) if isinstance(a, ast.Assign) and isinstance(a.targets[0], ast.Name)
              and U(a.value) == "len(%s)" % kern]
-    cvars = [a.targets[0].id for a in ast.walk(f.node) if isinstance(a, ast.Assign) and isinstance(a.targets[0], ast.Name)
-             and C.is_call_to(a.value, "cpu_count")]
-    if len(nvars) != 1 or len(cvars) != 1:
-        ctx.broken("R1: n = len(kernel) / c = cpu_count() definitions not found")
-    n, c1 = nvars[0], cvars[0]
-    ctx.ok("R1", "n = len(kernel) is `%s`, c = cpu_count() is `%s`" % (n, c1), f.where())
+    # c: the name bound to an expression of cpu_count() (any positive value works for the lemma)
+    cdefs = [a for a in ast.walk(f.node) if isinstance(a, ast.Assign) and isinstance(a.targets[0], ast.Name)
+             and C.calls_to(a.value, "cpu_count")]
+    if len(nvars) != 1 or len(cdefs) != 1:
+        ctx.broken("R1: n = len(kernel) / c = <expression of cpu_count()> definitions not found (n: %s, c: %s)" % (
+            nvars, [U(a) for a in cdefs]))
+    n, c1 = nvars[0], cdefs[0].targets[0].id
+    ctx.ok("R1", "n = len(kernel) is `%s`, c = `%s` = %s" % (n, c1, U(cdefs[0].value)), f.where())
     ctx.check(W == U(be["M_w"]), "R1", "starts and ends use the same W", f.where(ed[0]),
               "starts use W=%s, ends use W=%s" % (W, U(be["M_w"])), f.qname, "same W")
     ctx.check(U(bs["M_c"]) == c1 and U(be["M_c"]) == c1, "R1", "t ranges over range(c) in starts and ends", f.where(sd[0]),
@@ -93,15 +95,26 @@ def _r1(ctx, f):
     wd = C.assigns_to(f.node, W)
     if len(wd) != 1:
         ctx.broken("R1: definition of the chunk size %s not found" % W)
-    form = None
-    for pat in CEIL_FORMS:
-        m = pm.match(pat, wd[0].value)
-        if m is not None and U(m["M_n"]) == n and U(m["M_c"]) == c1:
-            form = ("ceil", pat)
-    for pat in FLOOR_FORMS:
-        m = pm.match(pat, wd[0].value)
-        if m is not None and U(m["M_n"]) == n and U(m["M_c"]) == c1:
-            form = ("floor", pat)
+    def classify(e):
+        for pat in CEIL_FORMS:
+            m = pm.match(pat, e)
+            if m is not None and U(m["M_n"]) == n and U(m["M_c"]) == c1:
+                return ("ceil", pat)
+        for pat in FLOOR_FORMS:
+            m = pm.match(pat, e)
+            if m is not None and U(m["M_n"]) == n and U(m["M_c"]) == c1:
+                return ("floor", pat)
+        # max(k, X) / min(k, X) with a constant k keeps X's rounding direction for large n
+        if isinstance(e, ast.Call) and isinstance(e.func, ast.Name) and e.func.id in ("max", "min") and len(e.args) == 2:
+            consts = [a for a in e.args if C.const_num(a) is not None]
+            rest = [a for a in e.args if C.const_num(a) is None]
+            if len(consts) == 1 and len(rest) == 1:
+                return classify(rest[0])
+        if isinstance(e, ast.Call) and isinstance(e.func, ast.Name) and e.func.id == "int" and len(e.args) == 1:
+            return classify(e.args[0])
+        return None
+
+    form = classify(wd[0].value)
     if form is None:
         ctx.broken("R1: chunk size `%s` is neither a known ceiling form nor a known floor form of (n, c)" % U(wd[0].value))
     if form[0] == "ceil":
